@@ -671,7 +671,7 @@ func c01Ops(p *c01Pool) []c01Op {
 	// re-sign A (after whatever was done to it) with a key the attacker holds
 	// ("lookalike1" is an attacker key under a certificate that copies every name-like field of the IdP's: subject, issuer, serial,
 	// validity, subject and authority key identifiers)
-	for _, kn := range []string{"attacker", "idpenc", "lookalike1"} {
+	for _, kn := range []string{"attacker", "idpenc", "lookalike1", "wikileaf"} {
 		kn := kn
 		add("resign-A-with-"+kn, func(root *etree.Element, p *c01Pool) bool {
 			a := theA(root)
@@ -1172,6 +1172,10 @@ var c01WindowTrusts = []c01Trust{
 	{"metacerts:idpnext", []string{"idpnext"}},
 	{"metacerts:idpold,idpnext", []string{"idpold", "idpnext"}},
 	{"metacerts:idp1,idpold,idpfar,idpancient", []string{"idp1", "idpold", "idpfar", "idpancient"}},
+	// metadata that publishes the chain: the signing certificate and the CA that issued it. Only those two certificates are trusted -
+	// not everything else that CA ever issued ("wikileaf" is another leaf of the same CA, key held by the attacker)
+	{"metacerts:idp1,idpca", []string{"idp1", "idpca"}},
+	{"metacerts:idpcaleaf,idpca", []string{"idpcaleaf", "idpca"}},
 }
 
 func rootsOf(t c01Trust) []*x509.Certificate {
